@@ -723,9 +723,9 @@ func (sc *scenario) hookFor() *hookProgram {
 func (g *gen) rollout(i int, seed uint64, fair bool) *scenario {
 	r := g.r
 	sc := &scenario{Seed: seed, Family: "rollout"}
-	namespaced := r.Chance(2, 3)
+	namespaced := r.Chance(7, 8)
 	ctl := ctlSpec{Name: fmt.Sprintf("rc%d", i%5), ParentAPIVersion: "ctl.example.com/v1", ParentNamespaced: namespaced,
-		GenSelector: r.Chance(1, 2), Finalize: r.Chance(1, 5)}
+		GenSelector: r.Chance(1, 6), Finalize: r.Chance(1, 5)}
 	if namespaced {
 		ctl.ParentResource, ctl.ParentKind = "things", "Thing"
 	} else {
@@ -870,6 +870,8 @@ func generateScenarios(prop string, seed uint64, n int, adv bool) []*scenario {
 			out = append(out, g.rollout(i, s, i%3 == 0))
 		case prop == "C08":
 			out = append(out, g.rollout(i, s, true))
+		case prop == "C09":
+			out = append(out, g.rollout(i, s, i%2 == 0))
 		case prop == "C12" && i%6 != 0:
 			out = append(out, g.faulty(i, s))
 		case prop == "C13" && i%8 != 0:
